@@ -263,6 +263,10 @@ func (u *Upstream) WriteDataPoints(ctx context.Context, dataID *message.DataID, 
 	if u.state.Is(streamStatusDraining) {
 		return errors.New("draining")
 	}
+	if len(dps) == 0 {
+		// nothing to buffer: a group without points would be cut into a chunk of its own
+		return nil
+	}
 
 	// The flush loop reads the group after this method has returned: it gets copies of the data id and of the slice
 	// of points, which belong to the caller and may be reused for the next write.
